@@ -9,7 +9,7 @@ RULE = ("seeded random grammars (names, pure actions, zero-width matches, anchor
         "newlines included) x options (parse_all, max_matches, overlap, include_separators, maxsplit): (i) extracted model vs "
         "implementation for parse_string / parse_all / scan_string (overlap, max_matches, always_skip_whitespace); (ii) oracle on the "
         "implementation: parse_all <=> (expr + StringEnd()), matches / == str, scan matches ordered, each equal to a direct parse at its "
-        "start, no skipped position would have matched, search_string / transform_string / split are the documented functions of the "
+        "start, no skipped position would have matched, with overlap=True the reported list is exactly what the visit of the cursor positions (Proofs/ScanOverlap.v ovisit, walked on the implementation) reports, search_string / transform_string / split are the documented functions of the "
         "scan list, split pieces + matched separators restore the input; (iii) the And of the parse_all theorems (Model/EntryExtra.v "
         "and_se / and_se_gen) equals, tree for tree, the dumped real `expr + StringEnd()` (built before and after streamline); "
         "non-trivial = scan with >= 1 match on an input of length >= 2")
@@ -48,6 +48,105 @@ def outcome(f):
         return ("div",)
     except Exception as e:
         return ("other", type(e).__name__)
+
+
+def overlap_walk(e, parsed):
+    """Proofs/ScanOverlap.v `ovisit` / `oreport` / `onext` evaluated on the implementation's own preParse / _parse: the cursor
+    positions an overlapping scan visits, what each reports, and how the walk ends ("done" = ran off the end of the text,
+    "stop" = something other than a ParseException was raised).  After a reported match the cursor advances by one when the
+    match began exactly at the cursor, and jumps to the END of the match when the pre-parse skipped something in front of it."""
+    import pyparsing as pp
+    pre = pp.Empty()
+    pre.ignoreExprs = e.ignoreExprs
+    pre.whiteChars = e.whiteChars
+    loc, vis, reps = 0, [], []
+    while loc <= len(parsed):
+        vis.append(loc)
+        pl = outcome(lambda: pre.preParse(parsed, loc))
+        if pl[0] != "ok":
+            return vis, reps, "stop"
+        pl = pl[1]
+        d = outcome(lambda: (lambda r: (r[0], r[1].as_list()))(e._parse(parsed, pl, callPreParse=False)))
+        if d[0] == "ok":
+            nl, t = d[1]
+            if nl > loc:
+                reps.append((t, pl, nl))
+                loc = nl if pl > loc else loc + 1
+            else:
+                loc = pl + 1
+        elif d[0] == "err" and d[1] == "ParseException":
+            loc = pl + 1
+        else:
+            return vis, reps, "stop"
+    return vis, reps, "done"
+
+
+OVERLAP_PREAMBLE = """From Coq Require Import List ZArith NArith Bool.
+From PP Require Import Model.Str Model.Results Model.Prog Model.Core Model.Entry Model.EntryExtra Proofs.EntryProofs Proofs.ScanOverlap.
+Import ListNotations.
+"""
+
+# (grammar, input, spans, visited cursor positions); the first two are the values stated by the Examples
+# C08_scan_overlap_word_instance / C08_scan_overlap_zero_width_instance of coq/Props/C08.v
+OVERLAP_FIXED = [
+    (("word", "ab"), "ab ab", [(0, 2), (1, 2), (3, 5)], [0, 1, 2, 5]),
+    (("empty",), "  a ", [(2, 2), (4, 4)], [0, 2, 3, 4]),
+    (("word", "ab"), "abab", [(0, 4), (1, 4), (2, 4), (3, 4)], [0, 1, 2, 3, 4]),
+    (("word", "ab"), "ab  ab b", [(0, 2), (1, 2), (4, 6), (7, 8)], [0, 1, 2, 6, 8]),
+    (("opt", ("lit", "a")), " a b a", [(1, 2), (3, 3), (5, 6)], None),
+    (("mf", ("lit", "abc"), ("lit", "b")), "abc", [(0, 3), (1, 2)], [0, 1, 2, 3]),      # the ends are not increasing
+    (("word", "ab"), "", [], [0]),
+]
+
+
+def overlap_fixed(ctx):
+    """scan_string(overlap=True) on fixed cases, three ways: the real generator, the visit of Proofs/ScanOverlap.v walked on the
+    implementation (overlap_walk), and the Coq model (`scan_string` of Model/Entry.v and `ovisit` of Proofs/ScanOverlap.v, both
+    evaluated by vm_compute on the DUMPED real object); all must agree with one another and with the values the Examples of
+    Props/C08.v state."""
+    from tools.props import c16
+    ok, log = vlib.build_target("Proofs/ScanOverlap.v")
+    if not ok:
+        ctx.broken("correspondence:scan-overlap (Proofs/ScanOverlap.v does not build)")
+        return
+    terms, keys = [], []
+    for (g, inp, spans, visit) in OVERLAP_FIXED:
+        e = build.Builder({}).build_all(g)
+        e.streamline()
+        real = outcome(lambda: [(s_, e_) for _, s_, e_ in e.scan_string(inp, overlap=True)])
+        vis, reps, how = overlap_walk(e, inp)
+        walked = [(s_, e_) for _, s_, e_ in reps]
+        same = real == ("ok", spans) and walked == spans and how == "done" and (visit is None or vis == visit)
+        ctx.case("overlap-fixed:%r|%r" % (g, inp), True, same)
+        if not same:
+            ctx.violation("scan-overlap-fixed:%r|%r" % (g, inp),
+                          "%r on %r with overlap=True: scan_string gives %r, the visit of the cursor positions %r reports %r (%s); stated: %r, visit %r" % (
+                              g, inp, real, vis, walked, how, spans, visit), {"kind": "overlap-fixed"})
+        try:
+            t = c16.sx_to_coq(observe.parse_sx(dump.Dumper().expr(e)))
+        except (dump.Unsupported, c16.NotExpressible):
+            ctx.broken("correspondence:scan-overlap (%r is not expressible in Gallina)" % (g,))
+            continue
+        s = vlib.coq_str(inp)
+        terms.append("match drun (parse (step []) 60) (scan_string %s true %s None true true) with Some (res, SDone) => Some (spans res) | _ => None end" % (t, s))
+        terms.append("ovisit (parse (step []) 60) %s %s true (length %s + 2) 0" % (t, s, s))
+        keys.append((g, inp, spans, vis))
+    if not terms:
+        return
+    try:
+        res = vlib.coq_eval_terms("c08_overlap", OVERLAP_PREAMBLE, terms)
+    except RuntimeError as ex:
+        ctx.broken("correspondence:scan-overlap (model evaluation failed: %s)" % str(ex)[-300:])
+        return
+    for i, (g, inp, spans, vis) in enumerate(keys):
+        m_spans, m_vis = res[2 * i], res[2 * i + 1]
+        got = [tuple(x) for x in m_spans[1]] if isinstance(m_spans, tuple) and m_spans[0] == "Some" else None
+        same = got == spans and list(m_vis) == vis
+        ctx.case("overlap-fixed-model:%r|%r" % (g, inp), True, same)
+        if not same:
+            ctx.broken("correspondence:scan-overlap (model: spans %r visit %r; implementation: spans %r visit %r; %r on %r)" % (
+                got, m_vis, spans, vis, g, inp))
+    ctx.stat("overlap_fixed", len(keys))
 
 
 def oracle(g, env, inp, opts, has_ignore):
@@ -121,6 +220,12 @@ def oracle(g, env, inp, opts, has_ignore):
                     bad.append(("scan-complete", "position %d (pre-parsed %d) matches up to %d but scan_string skipped it" % (loc, pl, d[1])))
                     break
                 loc = pl + 1
+        # overlap, unlimited: the reported list is exactly what the visited cursor positions report (C08_scan_overlap_complete)
+        if ov and mx is None:
+            vis, reps, how = overlap_walk(e, parsed)
+            if how == "done" and reps != ms:
+                bad.append(("scan-overlap-complete", "scan_string(overlap=True) reports %r but the visit %r of the cursor positions reports %r" % (
+                    [(a, b_) for _, a, b_ in ms], vis, [(a, b_) for _, a, b_ in reps])))
     # (d) search_string
     ss = outcome(lambda: e.search_string(inp).as_list())
     sc2 = outcome(lambda: [t.as_list() for t, _, _ in e.scan_string(inp, always_skip_whitespace=False)])
@@ -306,6 +411,7 @@ def correspond(ctx):
                ("scan", None, False, False), ("transform",)]
     groups = [(g, env, inputs, [("none",)], entries) for (g, env, inputs, _) in cases]
     settings_sequence(ctx)
+    overlap_fixed(ctx)
     stats = {}
     recs = corr.run_groups(groups, stats=stats)
     ctx.coverage_extra["class_histogram"] = stats.get("classes", {})
@@ -371,6 +477,13 @@ def replay(ctx, obj):
         c2 = vlib.Ctx(PROP, "quick", 0)
         c2.known = {}
         settings_sequence(c2)
+        for v in c2.violations:
+            print(v["what"])
+        return not c2.violations
+    if r.get("kind") == "overlap-fixed":
+        c2 = vlib.Ctx(PROP, "quick", 0)
+        c2.known = {}
+        overlap_fixed(c2)
         for v in c2.violations:
             print(v["what"])
         return not c2.violations
